@@ -109,3 +109,37 @@ Example ex_truncate_tiny : trunc_ellipsis [104; 101; 108; 108; 111] 2 = Some [10
 Proof. reflexivity. Qed.
 Example ex_truncate_negative : trunc [104; 101; 108; 108; 111] (-5) = Some [].
 Proof. reflexivity. Qed.
+
+(* C01: the hypotheses of c01_status_wellformed / c01_invariant_preserved are inhabited, in both the
+   waiting and the finished form *)
+From Verif Require Import proofs.EngineInv.
+
+Example ex_reachable_waiting : reachable ex_waiting /\ s_status ex_waiting = SWaiting.
+Proof.
+  split; [|reflexivity].
+  change ex_waiting with (session_ (match ex_started with ROk x => x | _ => {| session_ := new_session TManual 1; sprint_ := empty_sprint |} end)).
+  eapply reach_start with (a := ex_assets) (t := TManual) (f := 1). vm_compute. reflexivity.
+Qed.
+
+Example ex_reachable_completed : reachable ex_completed /\ s_status ex_completed = SCompleted.
+Proof.
+  split; [|reflexivity].
+  assert (H : exists x, resume_session ex_assets ex_waiting (RMsg [97]) [] = Resumed (ROk x) /\ session_ x = ex_completed).
+  { vm_compute. eexists; split; reflexivity. }
+  destruct H as (x & Hx & <-). eapply reach_resume; [apply ex_reachable_waiting|exact Hx].
+Qed.
+
+(* C05: the hypotheses of c05_iteration_decreases_measure are inhabited (first iteration of a start) *)
+From Verif Require Import proofs.EngineFuel.
+
+Definition ex_x0 : st :=
+  {| session_ := set_pushed (set_type (new_session TManual 1) 0) (Some {| p_flow := 1; p_terminal := false |});
+     sprint_ := empty_sprint |}.
+
+Example ex_term_inv : term_inv ex_assets ex_x0 (init_lstate true) /\
+                      exists x' l', cuw_iter ex_assets ex_x0 (init_lstate true) = ICont x' l'.
+Proof.
+  split.
+  - constructor; [apply loop_inv_start|simpl; lia|]. intros [C _]. simpl in C. lia.
+  - vm_compute. eexists; eexists; reflexivity.
+Qed.
